@@ -412,7 +412,7 @@ def write_eps(matrix, matrix_size, out, scale=1, border=None, dark='#000', light
                 if not 0.0 <= c <= 1.0:
                     raise ValueError(f'Invalid color "{c}". Not in range 0 .. 1')
                 return c
-            return 1 / 255.0 * c if c != 1 else c
+            return 1 / 255.0 * c
 
         return tuple([to_float(i) for i in _color_to_rgb(clr)])
 
@@ -665,7 +665,7 @@ def write_pdf(matrix, matrix_size, out, scale=1, border=None, dark='#000',
                 if not 0.0 <= c <= 1.0:
                     raise ValueError(f'Invalid color "{c}". Not in range 0 .. 1')
                 return c
-            return 1 / 255.0 * c if c != 1 else c
+            return 1 / 255.0 * c
         return tuple([to_float(i) for i in _color_to_rgb(clr)])
 
     width, height, border = _valid_width_height_and_border(matrix_size, scale, border)
